@@ -12,7 +12,7 @@ import ast
 
 from ..cfg import known_falsy
 from ..model import self_attr, unparse, walk_body_shallow
-from .util import (at, result_stored, aliases_of, call_name, call_recv, calls_in, chains_in, handler_exits, kwarg, names_in, need,
+from .util import (case_reach, at, result_stored, aliases_of, call_name, call_recv, calls_in, chains_in, handler_exits, kwarg, names_in, need,
                    node_assign_value, norm, registrations, where)
 
 TECHNIQUE = "single-writer + success-only registration, failure distinguishability on CFG paths, snapshot def-use, " \
@@ -160,6 +160,17 @@ def run(ctx):
             facts=["failure handler absorbs=%s" % absorbs, "established=%s" % sorted(established),
                    "distinguishing tests=%d" % len(distinguishing)])
 
+    # stop() cancels the pending block and thereby *resumes* the feeder (its failure handler swallows the stop-induced
+    # CancelledError) before stop() has cleared anything but the flag: with `_stopping` set, no path may lead from the
+    # suspension back to a processor invocation
+    after = [t for t, lab in cf.succ[s.id] if lab != ("exc",)]
+    again = case_reach(cf, None, "CancelledError", {"CancelledError": {"CancelledError", "Exception"}}, True, {inv_node.id}, start=after)
+    r.check(not again, "%s#no-invocation-once-stopping" % feeder.qname,
+            "stop() cancels the block in progress; the feeder resumes and, because nothing between the suspension and the next "
+            "invocation looks at `_stopping`, hands the next block to the processor from inside stop()", where(feeder, s.stmt),
+            "auto_commit_every_n=2, batch 0..5, block [0,1] pending: stop() makes the processor run on [2,3]; if it completes "
+            "synchronously the processed offset becomes 3 and the next commit covers the cancelled block")
+
     r.check(absorbs is False or not releases, "%s#failure-exit-keeps-block" % feeder.qname,
             "after a failed block the feeder still signals block completion (%s): the next fetch reply is fed to the "
             "processor and progress passes the failed block" % [m.text(50) for m in releases[:2]], where(feeder, s.stmt),
@@ -279,6 +290,8 @@ def run(ctx):
 
 
 MUTANTS = [
+    {"id": "feeder-ignores-stopping", "file": "consumer.py", "old": "                if self._stopping or self._start_d is None or self._start_d.called:",
+     "new": "                if self._start_d is None or self._start_d.called:", "expect": "C03.R2", "note": "finding F16"},
     {"id": "update-on-both", "file": "consumer.py", "old": "d.addCallback(self._update_processed_offset, last_offset)",
      "new": "d.addBoth(self._update_processed_offset, last_offset)", "expect": "C03.R1"},
     {"id": "offset-of-whole-fetch", "file": "consumer.py", "old": "last_offset = msgs_to_proc[-1].offset",
